@@ -72,6 +72,55 @@ CHECKS = {
          "string codecs. Trusted: TLC, Go's testing/synctest for quiescence, crypto/sha256, math/big readback, the gate hook sitting before "
          "verify-and-deliver; the hash is injective in the Merkle model; the validity matrix is taken from the real Verify.",
          "TLC exhaustive interleavings; gate-hook replay of TLC delivery orders on the real checker; TLC trace validation; spec-as-oracle enumeration"),
+ "C19": ("model_checking",
+         "DBFT.tla is an implementation-shaped model of dBFT 2.0 as integrated by pkg/consensus for one height (timer firings, deliveries of any sent "
+         "payload to any validator at most once in any order, undelivered = lost, block sync, a silent set of at most f validators that changes over "
+         "time); TLC checks Agreement, AcceptJustified and CommitLock exhaustively for N=4 (quick: one backup / the first primary silent with a view "
+         "change; thorough: nobody silent in view 0, 2.1M states, and progress under weak fairness), a named deviation (BugQuorum) must be caught. TLC "
+         "simulation supplies schedules, including goal-directed ones (random walks reaching 'commits in different views', 'block after a view change', "
+         "'exactly a quorum accepted'). They are replayed one event at a time on 4 and 7 REAL consensus.Service instances, each on its own real ledger, "
+         "real bqueue and real extensible pool (wire decode, witness check, de-duplication), with an injected virtual dBFT timer and an event-loop idle "
+         "callback (build tag verif); a seeded random adversary adds late/repeated payloads incl. recovery traffic, timers, transactions reaching only some "
+         "validators, block relays and changing silent sets; all-honest fully-delivering phases and runs follow. TLC (DBFTTrace) judges: Agreement (one "
+         "hash per height over all ledgers and all assembled blocks), Acceptable (every block a validator assembles carries a witness that its peers' "
+         "ledgers accept; every committed block fed through the wire encoding is accepted by every other ledger), Progress and TxIncluded where the "
+         "statement's liveness condition holds.",
+         "DESIGN.md section 4 C19",
+         "Trusted: TLC; the harness network and virtual clock; 'silent = late' (no deliveries to and no timer of a silent validator); synchrony = "
+         "everything delivered, blocks relayed through the block queue, earliest virtual deadline fires when nothing else can happen; Progress bound 6N "
+         "rounds per block. Liveness is judged only where everybody was honest and everything was delivered since the height began (after an asynchronous "
+         "period the left-over height may stall: known dBFT 2.0 commit/view split, counted as stalls_after_asynchrony, not judged). Wall-clock only "
+         "detects a dead driver (exit 2). One height per model run; recovery messages are not modelled (they are exercised on the real nodes).",
+         "TLA+ dBFT model checked by TLC; TLC (goal-directed) schedules replayed on real consensus services with virtual time; TLC trace validation"),
+ "C05": ("model_checking",
+         "TLC exhaustively checks that the code-shaped model Tokens.tla (transfers incl. self/zero, vote/unvote, register/unregister with drop-if-zero, mint, "
+         "burn, claim, deposit, withdraw, notary fee, faulting transactions) preserves every law of TokenLaws.tla (NEO supply = 100,000,000 = sum of balances; GAS "
+         "supply = sum of balances; candidate votes = NEO of its voters, also for unregistered-but-voted candidates; voters count; Notary GAS = sum of deposits; "
+         "no negative balance) and that each step's balance change equals the net of the Transfer events it emits; nine named deviations are each caught. "
+         "TLC-generated behaviours are executed as real transactions on a real chain, seeded random histories are added (histgen with token weights raised, "
+         "contracts with payment callbacks that throw/forward/pull/vote, try-wrapped and faulting transfers, registration by payment, notary-assisted "
+         "transactions, account blocking, epoch rewards). After every block the ledger is read FROM STORAGE (NEO/GAS/Notary items decoded) and the block's "
+         "Transfer events from stored execution results; TLC (TokensTrace) evaluates all 9 laws with exact big-number arithmetic (BigNat.tla, cross-checked "
+         "against TLC integers) at every block boundary.",
+         "DESIGN.md section 4 C05",
+         "Trusted: TLC; the decoders in pkg/core/state; BigNat (cross-checked). Reward/claim/fee amounts are not predicted (taken from events): only "
+         "conservation is judged. Observation at block boundaries only. Transfer events counted: native NEO/GAS hashes in HALT executions of OnPersist, "
+         "transactions and PostPersist.",
+         "TLA+ judge + code-shaped model checked by TLC; TLC behaviours replayed on a real chain; TLC trace validation of per-block storage projections"),
+ "C15": ("model_checking",
+         "The witness check grants exactly where the abstract specification Witness.tla grants, shown on real code for every enumerated cell through "
+         "System.Runtime.CheckWitness in real deployed contracts and through WitnessCondition.Match on a stub context: 3,926 signer configurations (each "
+         "scope alone with all parameter lists; all 1,848 single rules over condition trees of depth <=2 and all 1,764 two-rule lists; all 16 scope-bit "
+         "combinations; subject identity/position variants incl. contract and zero-hash signers) x 925 call contexts of up to 3 links (contracts with and "
+         "without groups, native GAS as caller through onNEP17Payment, LoadScript dynamic scripts incl. a dynamic copy of the entry script, frames without "
+         "ReadStates) x up to 7 accounts (signer under test, other signers, a non-signer, calling/current/entry hashes): 3.3M cells quick, 10.3M thorough. "
+         "TLC also checks over the same cells that the neo-go-shaped model WitnessImpl refines the abstract spec; 5 named deviations are refuted; seeded "
+         "random signer lists (depth-3 trees, up to 4 rules, 3 signers) are judged by TLC; 32 cells per run go through signed transactions in blocks.",
+         "DESIGN.md section 4 C15",
+         "Trusted: hand-assembled probe bytecode; the GetTestVM execution path; a neotest chain with all stable hardforks; the wire round trip of signers; TLC. "
+         "The harness's contexts are cross-checked frame by frame against the spec's universe (mismatch = exit 2). One tolerance pinned by the repository's own "
+         "tests: in a frame without ReadStates a signer with the CustomGroups bit may be refused (fault) - recorded, not judged.",
+         "spec-as-oracle exhaustive enumeration by TLC; Impl=>Abstract model check; TLC judging of recorded observations"),
 }
 
 NOT_YET = {}   # id -> reason (properties not (yet) claimed)
